@@ -444,8 +444,8 @@ impl Harness for C05 {
     }
     fn cases(&self, tier: Tier) -> u64 {
         match tier {
-            Tier::Quick => 30_000,
-            Tier::Thorough => 1_500_000,
+            Tier::Quick => 60_000,
+            Tier::Thorough => 4_000_000,
         }
     }
     fn gen(&self, rng: &mut Rng, tier: Tier) -> Case {
